@@ -114,6 +114,11 @@ class ConstructPipeline(RewritePattern):
                 break
             assert next_op is not None
 
+        # a valid pipeline consists only of stages: operations behind the last stage
+        # would stay behind in the loop, that is executed fewer times after unrolling
+        if not isinstance(next_op, scf.YieldOp):
+            return
+
         # a valid pipeline has at least two stages
         if len(stages) < 2:
             return
